@@ -10,4 +10,5 @@ CONSTANTS
   BPre = {"none", "ok", "cancel"}
   L = 12
 CONSTRAINT GenBound
+CONSTRAINT GenOut
 CHECK_DEADLOCK FALSE
